@@ -8,6 +8,8 @@ mod c04;
 mod c05;
 mod c06;
 mod c08;
+mod c10;
+mod c11;
 mod c15;
 
 pub fn level_of(p: &str) -> &'static str {
@@ -26,6 +28,8 @@ fn dispatch(ctx: &Ctx, replay: Option<&serde_json::Value>) {
         "C05" => c05::run(ctx, replay),
         "C06" => c06::run(ctx, replay),
         "C08" => c08::run(ctx, replay),
+        "C10" => c10::run(ctx, replay),
+        "C11" => c11::run(ctx, replay),
         "C15" => c15::run(ctx, replay),
         p => {
             eprintln!("unknown property {p}");
